@@ -571,6 +571,9 @@ class NDNApp:
                 del self._pit[node_name]
             raise types.InterestTimeout()
         except aio.CancelledError:
+            # The caller gave up (or the face shut down): the entry must not stay pending
+            if node.timeout(future) and self._pit.get(node_name) is node:
+                del self._pit[node_name]
             raise types.InterestCanceled()
         # ValidationError, InterestNack are passed to the parent caller
         return data_name, content, pkt_context
